@@ -7,7 +7,10 @@
    to the REAL implementation's output, must-panic case included.
 
    The proofs rest on one decomposition, generic in the element type and the back end (Proofs/KernelValue.v):
-     generic_cosine a b = cosine (value of generic_dot_product a b) (value of generic_squared_norm a) (.. of b). *)
+     generic_cosine a b = cosine (value of generic_dot_product a b) (value of generic_squared_norm a) (.. of b)
+   so that (ii) follows from C03 (the two integer reductions are exact modulo 2^w), (iii) from the commutativity of the
+   IEEE product / fused multiply-add in their first two arguments, and (iv) from C04's a-priori bounds for the two float
+   reductions, Cauchy-Schwarz on lists and one rounding each for the product, square root, quotient and difference. *)
 From Coq Require Import ZArith Reals List Bool.
 From Flocq Require Import Core IEEE754.BinarySingleNaN.
 From CF Require Import Base.Mem Model.Tables Model.Prim Model.SimdApi Model.Kernels Model.Regs Model.Spec.
